@@ -145,6 +145,7 @@ struct Checker<'a> {
     regions_before: Vec<(u64, u64)>,
     slot_before: Vec<u8>,
     lifetime: usize,
+    op_ordinal: u64,
     /// bytes written to code and not yet covered by an icache flush
     dirty: BTreeSet<u64>,
 }
@@ -156,7 +157,7 @@ fn slot_of(entry: u64) -> (u64, u64) {
 
 impl<'a> Checker<'a> {
     fn viol(&mut self, tag: &str, props: &[&'static str], detail: String) {
-        if self.out.violations.len() < 8 {
+        if self.out.violations.len() < 16 && !self.out.violations.iter().any(|v| v.tag == tag) {
             self.out.violations.push(Violation { tag: tag.to_string(), props: props.to_vec(), detail });
         }
     }
@@ -475,9 +476,25 @@ impl<'a> Hooks for Checker<'a> {
         self.ev_mark = with_world(|w| w.events.len());
         self.regions_before = with_world(|w| w.injector_regions());
         self.slot_before = with_world(|w| w.peek(s, SLOT as usize).unwrap());
+        // arm the fault schedule for this installation only (never for the restore path: the
+        // properties promise nothing about a failing restore)
+        let ord = self.op_ordinal;
+        self.op_ordinal += 1;
+        let sc = self.sc;
+        with_world(|w| {
+            let base = w.counters.mmap_calls;
+            w.policy.fail_mmap = sc.policy.fail_mmap.iter().map(|i| base + i).collect();
+            w.policy.fail_mmap_all = sc.policy.fail_mmap_all;
+            w.policy.fail_mprotect = if sc.policy.fail_mprotect.contains(&ord) { vec![w.counters.mprotect_calls] } else { vec![] };
+        });
     }
 
     fn after_op(&mut self, i: usize, op: &Install, r: OpResult) {
+        with_world(|w| {
+            w.policy.fail_mmap.clear();
+            w.policy.fail_mmap_all = false;
+            w.policy.fail_mprotect.clear();
+        });
         let sc = self.sc;
         let t = sc.targets[op.target];
         let (s, _) = slot_of(t);
@@ -587,9 +604,9 @@ fn build_world(sc: &SimScenario) -> (World, Vec<(u64, Vec<u8>)>) {
         fallback: p.fallback.clone(),
         topdown_base: p.topdown_base,
         no_fallback: p.no_fallback,
-        fail_mmap: p.fail_mmap.clone(),
-        fail_mmap_all: p.fail_mmap_all,
-        fail_mprotect: p.fail_mprotect.clone(),
+        fail_mmap: Vec::new(),
+        fail_mmap_all: false,
+        fail_mprotect: Vec::new(),
         mmap_min_addr: p.mmap_min_addr,
         user_limit: p.user_limit,
         win_granule: 0x10000,
@@ -651,6 +668,7 @@ pub fn execute(sc: &SimScenario) -> Outcome {
         regions_before: Vec::new(),
         slot_before: Vec::new(),
         lifetime: 0,
+        op_ordinal: 0,
         dirty: BTreeSet::new(),
     };
     let _ = ck.os;
